@@ -17,7 +17,7 @@ from ..report import short
 from ..snapshot import snapshot, first_diff
 
 glom = env.bind()
-from glom import T, Fold, Sum, Flatten, Merge, flatten, merge, FoldError, GlomError, glom as G  # noqa: E402
+from glom import T, S, Fold, Sum, Flatten, Merge, flatten, merge, FoldError, GlomError, glom as G  # noqa: E402
 
 META = {
     'level': 'exploration',
@@ -129,18 +129,27 @@ def container_builder(rng, elems):
     return c, lambda: OrderedDict((e, i) for i, e in enumerate(uniq)) if rng.random() < 0 else dict((e, i) for i, e in enumerate(uniq))
 
 
-def wrap_target(rng, build):
+def wrap_target(rng, build, allow_scope=True):
     """-> (spelling, subspec, target builder)"""
+    global _PENDING_PREFIX
+    _PENDING_PREFIX = None
     r = rng.random()
-    if r < 0.5:
+    if r < 0.45:
         return 'T', T, build
-    if r < 0.75:
+    if r < 0.65:
         return 'path', 'items', lambda: {'items': build(), 'other': [99]}
-    return 'T[]', T['items'], lambda: {'items': build(), 'other': [99]}
+    if r < 0.85 or not allow_scope:
+        return 'T[]', T['items'], lambda: {'items': build(), 'other': [99]}
+    # the subspec reads the ENCLOSING scope: the reduction is a step behind a binder, its subspec is S.rv_items
+    _PENDING_PREFIX = S(rv_items=T['items'])
+    return 'scope', S.rv_items, lambda: {'items': build(), 'other': [99]}
+
+
+_PENDING_PREFIX = None
 
 
 def unwrap(spelling, target):
-    return target if spelling == 'T' else target['items']
+    return target if spelling == 'T' else target['items']     # ('path', 'T[]', 'scope')
 
 
 # ---------------------------------------------------------------------------
@@ -152,7 +161,7 @@ def repeated(col, family, key, make_spec, tbuild, ref, init_counters, lazy=False
     if not built.ok:
         col.violation('C15/%s-spec-cannot-be-built' % family, 'building the spec for %s raised %r' % (desc, built.exc), {'desc': desc})
         return
-    spec = built.value
+    spec = built.value if _PENDING_PREFIX is None else (_PENDING_PREFIX, built.value)
     rendering = short(spec)
     results = []
     wit = {'spec': rendering, 'desc': desc}
@@ -245,7 +254,7 @@ OPS_SEQ = [('iadd', operator.iadd), ('add', operator.add), ('custom', lambda a, 
 
 
 def one_random(col, rng):
-    fam = rng.choice(['fold-num', 'fold-seq', 'sum', 'flatten', 'flatten-lazy', 'merge', 'flatten-fn', 'merge-fn', 'fold-default'])
+    fam = rng.choice(['fold-num', 'fold-seq', 'sum', 'sum-seq', 'flatten', 'flatten-lazy', 'merge', 'flatten-fn', 'merge-fn', 'fold-default'])
     n = rng.choice([0, 1, 2, 3, 5, 8])
     lenclass = min(n, 3)
     if fam in ('fold-num', 'sum', 'fold-default'):
@@ -276,6 +285,21 @@ def one_random(col, rng):
             a, b = call(ref, tbuild()), call(ref_b, tbuild())
             if a.ok and b.ok and a.value != b.value:
                 col.violation('C15/reference-models-disagree', 'reduce(iadd) %r vs sum %r on %s' % (a, b, desc), None)
+    elif fam == 'sum-seq':
+        # Sum with a sequence accumulator (init=list / str / tuple): the elements are only ever READ
+        ekind, (iname, ifn) = rng.choice([('list', ('list', list)), ('list', ('list0', lambda: [0])), ('tuple', ('tuple', tuple)), ('str', ('str', str))])
+        elems = gen_elements(rng, ekind, n)
+        cname, build = container_builder(rng, elems)
+        spelling, sub, tbuild = wrap_target(rng, build)
+        init = CountInit(ifn, iname)
+        col.case((fam, iname, ekind, lenclass, cname, spelling), n >= 2)
+
+        def ref(t):
+            acc = ifn()
+            for e in unwrap(spelling, t):
+                acc = acc + e          # (a NEW object each step: the reference cannot alias its input)
+            return acc
+        repeated(col, fam, None, lambda: Sum(sub, init=init), tbuild, ref, [init], desc='%s of %s' % (cname, short(elems)))
     elif fam == 'fold-seq':
         ekind = rng.choice(['list', 'tuple', 'str', 'mixedseq', 'set'])
         elems = gen_elements(rng, ekind, n)
@@ -345,7 +369,7 @@ def one_random(col, rng):
         ekind = {0: 'list', 1: 'list', 2: 'nested2', 3: 'nested3'}[levels]
         elems = gen_elements(rng, ekind, n)
         cname, build = container_builder(rng, elems)
-        spelling, sub, tbuild = wrap_target(rng, build)
+        spelling, sub, tbuild = wrap_target(rng, build, allow_scope=False)
         iname, ifn = rng.choice([('list', list), ('tuple', tuple), ('int', int), ('lazy', 'lazy'), ('default', None)])
         kw = {}
         if spelling != 'T':
@@ -390,7 +414,7 @@ def one_random(col, rng):
         ekind = rng.choice(['dict', 'odict', 'pairs'])
         elems = gen_elements(rng, ekind, n)
         build = lambda: deep_copy_elements(elems)
-        spelling, sub, tbuild = wrap_target(rng, build)
+        spelling, sub, tbuild = wrap_target(rng, build, allow_scope=False)
         iname, ifn = rng.choice([('dict', dict), ('odict', OrderedDict), ('default', None)])
         kw = {}
         if spelling != 'T':
